@@ -228,7 +228,8 @@ func runC08(env *lib.Env, rep *lib.Report) {
 	}
 	paths := []string{"direct", "sqltext"}
 	ops := []string{"insert", "update"}
-	journeys := []string{"cache->flush(tiny cache)->restart", "crash-recovery-from-log", "multi-page table: updates of first/middle/last rows, flush, eviction, re-selection, restart"}
+	journeys := []string{"cache->flush(tiny cache)->restart", "crash-recovery-from-log", "multi-page table: updates of first/middle/last rows, flush, eviction, re-selection, restart",
+		"long SQL text: 40-row INSERTs of multi-byte strings shifted byte by byte across the scanner's refill boundaries"}
 	rep.Bounds["schemas"] = fmt.Sprintf("%d (all orders of 1..3 columns (thorough: 1..4) over int, bigint, varchar, boolean)", len(schemas))
 	rep.Bounds["supply paths"] = paths
 	rep.Bounds["operations"] = ops
@@ -240,6 +241,14 @@ func runC08(env *lib.Env, rep *lib.Report) {
 		op := ops[c.Choose(len(ops), "op")]
 		journey := c.Choose(len(journeys), "journey")
 		c.Logf("schema %v, path %s, op %s, journey %s", types, path, op, journeys[journey])
+		if journey == 3 {
+			if len(types) == 1 && types[0] == "varchar" && path == "sqltext" && op == "insert" {
+				c08LongText(c)
+			} else {
+				c.Tag("journey-3-is-varchar-sqltext-insert-only")
+			}
+			return
+		}
 		if journey == 2 {
 			if op == "update" {
 				c08MultiPage(c, types, path)
@@ -558,4 +567,45 @@ func c08MultiPage(c *lib.Ctx, types []string, path string) {
 	}
 	c08Compare(w, expect, "after clean restart")
 	c.Observe(types, path, n)
+}
+
+// c08LongText: INSERT statements of about 2.5 KB whose string values consist of 2-, 3- and 4-byte characters,
+// each statement shifted by one more leading blank, so that every phase of every character meets the 1024- and
+// 2048-byte boundaries at which the scanner refills its buffer; every value must read back as written.
+func c08LongText(c *lib.Ctx) {
+	w := newWorld(c, worldOpt{})
+	defer func() { w.destroy() }()
+	if err := w.exec("CREATE TABLE v (id int, k0 varchar(255))"); err != nil {
+		w.failErr("create-failed", "CREATE TABLE v", err)
+		return
+	}
+	var expect [][]any
+	id := 0
+	for shift := 0; shift <= 13; shift++ {
+		var parts []string
+		var rows [][]any
+		for r := 0; r < 40; r++ {
+			id++
+			val := strings.Repeat([]string{"é", "日", "🙂", "éa日b🙂c"}[(r+shift)%4], 5+(r%7)) + fmt.Sprintf("#%d", id)
+			parts = append(parts, fmt.Sprintf("(%d, '%s')", id, val))
+			rows = append(rows, []any{int64(id), val})
+		}
+		q := strings.Repeat(" ", shift) + "INSERT INTO v VALUES " + strings.Join(parts, ", ")
+		if err := w.exec(q); err != nil {
+			w.failErr("valid-value-refused", fmt.Sprintf("INSERT of 40 multi-byte strings (%d bytes of SQL text, %d leading blanks)", len(q), shift), err)
+			return
+		}
+		expect = append(expect, rows...)
+		if !c08Compare(w, expect, fmt.Sprintf("after the INSERT with %d leading blanks (%d bytes of SQL text)", shift, len(q))) {
+			return
+		}
+		if shift%4 == 3 && !w.tick() {
+			return
+		}
+	}
+	c.NonTrivial()
+	if !w.tick() {
+		return
+	}
+	c08Compare(w, expect, "after the final flush")
 }
